@@ -14,6 +14,19 @@ CLAIMED = {
                         "(whose contract excludes them).",
         "technique": "explicit TLA+ spec (Codec.tla) model-checked with TLC + TLC trace validation of recorded library calls",
     },
+    "C07": {
+        "domains": ["sheet"],
+        "text": "TLC checks the reference grid (Sheet.tla) exhaustively on a 5x4 two-sheet model: coordinates stay in the "
+                "grid, keys stay unique, other sheets are untouched, remove undoes insert, move/copy are exact. Every "
+                "depth-1 behaviour of the model (both the workbook-level and the sheet-level entry point), TLC-simulated "
+                "random histories of 25 operations and generated histories at the real grid limits are executed on the "
+                "real library; after every operation the full public dump of every sheet must equal the specification's "
+                "post-state (TLC trace validation).",
+        "note": TRUST + ". Cells of the reference grid always carry a value, formulas used contain no references "
+                        "(C08 covers reference shifting), one range per conditional format; only in-range arguments.",
+        "technique": "explicit TLA+ spec (Sheet.tla) model-checked with TLC; TLC-generated behaviours replayed on the "
+                     "library; recorded traces validated by TLC against the same actions",
+    },
 }
 
 NOT_CLAIMED = {}
